@@ -16,6 +16,18 @@ pub struct Case {
     pub w: Wit,
     /// permutation seed for the order in which named inputs are supplied
     pub order: u16,
+    /// what this thread evaluated just before (the result must not depend on it)
+    pub pre: Option<Pre>,
+}
+
+/// a valid evaluation of a related assignment (same identity and path; x / external nullifier /
+/// both changed), then `reps` rejected evaluations that carry this case's values plus one malformed
+/// signal (wrong number of path elements / path indices, a missing signal)
+#[derive(Clone, Copy, Debug, Serialize, Deserialize)]
+pub struct Pre {
+    pub change: u8,
+    pub malformed: u8,
+    pub reps: u8,
 }
 
 /// values at 64-bit limb boundaries, 2^16±1, near p and p/2, uniform
@@ -74,7 +86,7 @@ impl Property for C05 {
     }
     fn rule(&self) -> String {
         "46-element input assignments (identitySecret, userMessageLimit, messageId, 20 path elements, 20 binary path indices, x, externalNullifier) with values at 64-bit limb boundaries 2^(64k)±{0,1,2}, 2^16±1, within 70000 of p and of p/2, boundary-weighted and uniform; messageId/limit ~70% inside the circuit's range plus its edges (difference exactly 2^16, 2^16+1, equal, messageId >= 2^16); \
-         the complete 5844-element vector of zerokit's graph evaluator is compared (sha256 of the decimal rendering, full vector on mismatch) with the vector circom's own generated calculator (rln.wasm under node) computes; assignments the reference rejects are only counted; evaluation is repeated and the named inputs are supplied in a generated order. \
+         the complete 5844-element vector of zerokit's graph evaluator is compared (sha256 of the decimal rendering, full vector on mismatch) with the vector circom's own generated calculator (rln.wasm under node) computes; assignments the reference rejects are only counted; evaluation is repeated and the named inputs are supplied in a generated order; 40% of the cases are preceded, on the same thread, by a valid evaluation of a related assignment (x and/or external nullifier changed) and 0..11 rejected evaluations carrying the case's own values plus one malformed signal — the result must not depend on that history. \
          non-trivial = accepted by the reference and some input on a limb boundary or within 70000 of p or p/2; distinct by case content".into()
     }
     fn level(&self) -> &'static str {
@@ -94,7 +106,11 @@ impl Property for C05 {
         Ok(())
     }
     fn strategy(&self, _tier: Tier, _shard: usize) -> BoxedStrategy<Case> {
-        (c05_wit(), any::<u16>()).prop_map(|(w, order)| Case { w, order }).boxed()
+        let pre = prop_oneof![
+            3 => Just(None),
+            2 => (1u8..4, 0u8..4, 0u8..12).prop_map(|(change, malformed, reps)| Some(Pre { change, malformed, reps })),
+        ];
+        (c05_wit(), any::<u16>(), pre).prop_map(|(w, order, pre)| Case { w, order, pre }).boxed()
     }
     fn check(&self, _ctx: &Ctx, c: &Case) -> Outcome {
         let mut o = Outcome::new();
@@ -133,6 +149,42 @@ impl Property for C05 {
             o.label("limb-boundary-or-near-p");
         }
         o.nontrivial = limb;
+        if let Some(pre) = &c.pre {
+            o.label("after-related-and-rejected-evaluations");
+            let mut pw = c.w.clone();
+            let one = Fx::from_u64(1);
+            if pre.change & 1 != 0 {
+                pw.x = Fx(pw.x.0 + one.0);
+            }
+            if pre.change & 2 != 0 {
+                pw.e = Fx(pw.e.0 + one.0);
+            }
+            // (1) a valid evaluation of the related assignment (its result is C05's business in its own case)
+            let _ = guarded(|| rln::circuit::calculate_rln_witness(named_inputs(&pw), graph_bytes()));
+            // (2) rejected evaluations carrying this case's values and one malformed signal
+            for k in 0..pre.reps {
+                let mut bad = named_inputs(&c.w);
+                match pre.malformed % 4 {
+                    0 => {
+                        bad[3].1.pop();
+                    }
+                    1 => bad[4].1.push(ark_bn254::Fr::from(0u64)),
+                    2 => {
+                        bad.remove(5);
+                    }
+                    _ => {
+                        bad[3].1.truncate(1);
+                    }
+                }
+                let n = bad.len();
+                bad.rotate_left(k as usize % n);
+                match guarded(|| rln::circuit::try_calculate_rln_witness(bad, graph_bytes()).map(|_| ()).map_err(|e| e.to_string())) {
+                    Ok(Ok(())) => o.label("malformed-assignment-accepted"),
+                    Ok(Err(_)) => o.label("malformed-assignment-rejected"),
+                    Err(_) => o.label("malformed-assignment-panicked"),
+                }
+            }
+        }
         // zerokit's evaluator, inputs in a generated order, evaluated twice
         let mut named = named_inputs(&c.w);
         let rot = c.order as usize % named.len();
